@@ -97,6 +97,27 @@ def trajectory(kind):
     return pr
 
 
+def invariant_with_trajectory(shape):
+    """a state invariant given INSIDE a trajectory-constraint conjunction (what `(:constraints (and (always ...) (sometime ...)))` reads as),
+    for the state-invariants remover: the Always part must become preconditions / goals, every other conjunct must survive as a constraint"""
+    pr = Problem("invariant_with_trajectory_" + shape)
+    p, q, r, g = (Fluent(n, BoolType()) for n in ("p", "q", "r", "g"))
+    pr.add_fluent(p, default_initial_value=True)
+    pr.add_fluent(q, default_initial_value=False)
+    pr.add_fluent(r, default_initial_value=False)
+    pr.add_fluent(g, default_initial_value=False)
+    for name, f, v in (("set_g", g, True), ("make_q", q, True), ("drop_q", q, False), ("drop_p", p, False), ("make_r", r, True)):
+        a = InstantaneousAction(name)
+        a.add_effect(f, v)
+        pr.add_action(a)
+    pr.add_goal(g)
+    parts = {"always+sometime": [Always(p), Sometime(q)], "sometime+always": [Sometime(q), Always(p)],
+             "always+at_most_once": [Always(p), AtMostOnce(q)], "always+sometime_after": [Always(p), SometimeAfter(q, r)],
+             "always+sometime+sometime": [Always(p), Sometime(q), Sometime(r)], "always+always+sometime": [Always(p), Always(Or(p, q)), Sometime(q)]}[shape]
+    pr.add_trajectory_constraint(And(parts))
+    return pr
+
+
 def quantified_timed_goal():
     pr = Problem("quantified_timed_goal")
     L = UserType("Location")
@@ -152,4 +173,6 @@ def crafted_cases():
         out.append(("crafted:colliding_names+grounding", (CK.CONDITIONAL_EFFECTS_REMOVING, CK.GROUNDING), colliding_names(order)))
     for k in ("always", "sometime", "at_most_once", "sometime_before", "sometime_after"):
         out.append(("crafted:trajectory_" + k, (CK.TRAJECTORY_CONSTRAINTS_REMOVING,), trajectory(k)))
+    for k in ("always+sometime", "sometime+always", "always+at_most_once", "always+sometime_after", "always+sometime+sometime", "always+always+sometime"):
+        out.append(("crafted:invariant_with_trajectory_" + k, (CK.STATE_INVARIANTS_REMOVING,), invariant_with_trajectory(k)))
     return out
